@@ -803,6 +803,25 @@ def case_random(ctx, name, form, batch, count, maxn):
                    seed=r.randint(0, 10 ** 6), tag="random", what=what)
 
 
+def case_early_answer(ctx, rseed):
+    """Formulas whose DIMACS text is larger than a pipe's capacity, starting with an empty clause, given to a solver that
+    answers as soon as it has seen that clause and leaves without reading the rest: its answer is the answer."""
+    tt.selfcheck()
+    r = ctx.rng("c20-early", rseed)
+    with Bench() as bench:
+        for times in (200, 9000, 14000, 40000, 120000):
+            base = [[]] + [[r.choice([1, -1]) * v for v in r.sample(range(1, 11), 3)] for _ in range(7)]
+            fm = make_formula({"label": "empty clause first, %d clauses" % times, "n": 10, "base": base, "times": times})
+            for name in [x for x in NAMES if CONV[x] == "stdin"][:3]:
+                for method in ("solve", "is_satisfiable"):
+                    bench.install({name})
+                    sh = {"kind": "answer", "early": 1, "comments": r.choice(["none", "head"])}
+                    fm.count(ctx)
+                    ctx.count("early_answer_calls")
+                    bridge(ctx, bench, fm, method, name, None, r.choice([None, 0, 2]) if method == "solve" else None, sh, {name},
+                           seed=r.randint(0, 10 ** 6), tag="early", what="early_answer")
+
+
 def subsets_for(tier, seed):
     full = (1 << len(NAMES)) - 1
     if tier == "thorough":
@@ -929,6 +948,8 @@ def workload(tier, seed):
         yield "search", {"masks": masks[i:i + step]}
     for b in range(2 if quick else 6):
         yield "refusals", {"batch": seed * 10 + b}
+    for b in range(1 if quick else 4):
+        yield "early_answer", {"rseed": seed * 10 + b}
     for name in (("lingeling", "march", "minisat") if quick else NAMES):
         for variant in ("sat", "unsat", "early", "silent"):
             yield "biginput", {"name": name, "variant": variant}
